@@ -220,6 +220,18 @@ func e5Case(hseed uint64, pos int, kind, speed string, race bool) Case {
 				if v > hi {
 					r.V("C04", "reconnect-skips-events", "Watch call #%d resumes at version %s but only versions up to %d had been delivered (previous call at %s): later events would be skipped; calls: %s", w.N, w.RV, hi, prev.RV, watchSummary(ws))
 				}
+				// events the SUBSCRIBER had received strictly before this call were forwarded
+				// by the watcher before the session ended: resuming behind them replays
+				// events that have already been applied and published
+				pubBefore := 0
+				for _, e := range mir.events() {
+					if e.At.Before(w.Time) && kit.Atoi(e.RV) > pubBefore {
+						pubBefore = kit.Atoi(e.RV)
+					}
+				}
+				if v < pubBefore {
+					r.V("C04", "reconnect-replays-published-events", "Watch call #%d resumes at version %s although the subscriber had already received version %d before that call was made: everything in between is applied and published a second time; calls: %s", w.N, w.RV, pubBefore, watchSummary(ws))
+				}
 				if v < lo {
 					r.V("C04", "reconnect-goes-back", "Watch call #%d resumes at version %s, before the previous call's version %s; calls: %s", w.N, w.RV, prev.RV, watchSummary(ws))
 				}
